@@ -24,6 +24,7 @@ abbrev Str := List Char
 inductive Err where
   | runtime     -- RuntimeError of generate_unique_id (max_length exceeded)
   | noName      -- AntismashInputError("record has no name")
+  | noMatch     -- AntismashInputError("no sequences matched filter: …")
   | assertion   -- the `assert len(all_record_ids) == len(sequences)`
   | fuel        -- (model only) the `while name in existing_ids` loop did not stop
   deriving DecidableEq, Repr
@@ -274,6 +275,42 @@ def preProcessIds (allowLong : Bool) (inp : List (Str × Str × Option Str)) : E
     match fixAll allowLong taken recs1 with
     | .error e => .error e
     | .ok recs2 => checkNames recs2
+
+/-! ### the options around the identifier handling: `checking_required`, `--limit-to-record` -/
+
+/-- `checking_required = not (options.reuse_results or options.skip_sanitisation)` -/
+def checkingRequired (reuse skip : Bool) : Bool := !(reuse || skip)
+
+/-- `Record.has_name(name)`: the current id, or the remembered original id -/
+def hasName (r : Rec) (name : Str) : Bool :=
+  if name == r.id then true
+  else match r.orig with
+    | some o => name == o
+    | none => false
+
+/-- `filter_records_by_name(sequences, target)`: the skip mark per record (`True` = skipped);
+    an empty target keeps everything, a target nobody carries is an input error -/
+def filterByName (recs : List Rec) (target : Str) : Except Err (List Bool) :=
+  if target.isEmpty then .ok (recs.map fun _ => false)
+  else if recs.countP (·.id == target) == 0 then .error .noMatch
+  else .ok (recs.map fun r => r.id != target)
+
+structure Options where
+  reuse : Bool := false          -- options.reuse_results
+  skip : Bool := false           -- options.skip_sanitisation
+  allowLong : Bool := false      -- options.allow_long_headers
+  limitTo : Str := []            -- options.limit_to_record
+
+/-- `pre_process_sequences` as far as identifiers and the name filter go: sanitise unless results
+    are reused / sanitisation is switched off, check that every record has a name, apply
+    `--limit-to-record`.  Result: the records and their skip marks. -/
+def preProcess (o : Options) (inp : List (Str × Str × Option Str)) : Except Err (List Rec × List Bool) :=
+  match (if checkingRequired o.reuse o.skip then preProcessIds o.allowLong inp else checkNames (mkRecs 1 inp)) with
+  | .error e => .error e
+  | .ok recs =>
+    match filterByName recs o.limitTo with
+    | .error e => .error e
+    | .ok skips => .ok (recs, skips)
 
 /-! ### gene identifiers: `_sanitise_id_value`, `add_gene`, `add_cds_feature` -/
 
